@@ -4,6 +4,7 @@ import (
 	"fmt"
 	"math"
 	"reflect"
+	"sort"
 	"strings"
 	"time"
 
@@ -110,8 +111,11 @@ func (g *valueGen) fillMsg(mv reflect.Value, ms *spec.Msg, path string) {
 		f := cont.FieldByName(a.GoName)
 		g.fillAttr(f, a, path+"/"+akey(a))
 	}
+	sort.Strings(order)
 	for _, gname := range order {
 		branches := groups[gname]
+		// the choice must not depend on the declaration order
+		sort.Slice(branches, func(i, j int) bool { return branches[i].Proto < branches[j].Proto })
 		a0 := branches[0]
 		if !g.enterEmbeds(mv, a0, path) {
 			continue
